@@ -113,8 +113,8 @@ def check_c20(prop, tier, seed, work, t0):
     bins = vfw.build_many(work, jobs)
 
     res = vfw.Results()
-    pairs_prod = 6000000 if th else 24000      # random filler pairs per operand representation and variant (~16 oracle comparisons each)
-    pairs_asan = 200000 if th else 4000
+    pairs_prod = 48000000 if th else 24000      # random filler pairs per operand representation and variant (~16 oracle comparisons each)
+    pairs_asan = 1000000 if th else 4000
     nsh_asan = NCPU if th else max(1, NCPU // 2)
     runs = []
     for name, arch, pr in VARIANTS:
